@@ -12,6 +12,8 @@ def run_case(c):
         shape = spec["shape"]
         if g == "rect_custom":
             spec["grid_obj"] = fdtdx.RectilinearGrid.custom(*[jnp.asarray(np.arange(n + 1) * sp, dtype=jnp.float64) for n in shape])
+        elif g == "rect_centered":      # explicit edges centred on the origin, as the uniform policy resolves them
+            spec["grid_obj"] = fdtdx.RectilinearGrid.custom(*[jnp.asarray((np.arange(n + 1) - n / 2.0) * sp, dtype=jnp.float64) for n in shape])
         elif g == "rect_uniform":
             spec["grid_obj"] = fdtdx.RectilinearGrid.uniform(shape=tuple(shape), spacing=sp)
         elif g == "quasi":
